@@ -156,8 +156,6 @@ def create_spend_transaction(
                 # presumably broadcast) but which haven't made it into the chain yet.
                 continue
 
-            wallet.spent_transaction_outputs.add(output_reference)
-
             inputs.append(Input(output_reference, None))
 
             collected_value += unspent_transaction_outs[output_reference].value
@@ -171,7 +169,11 @@ def create_spend_transaction(
                         change_address,
                     ))
 
-                return sign_transaction(wallet, unspent_transaction_outs, Transaction(inputs, outputs))
+                transaction = sign_transaction(wallet, unspent_transaction_outs, Transaction(inputs, outputs))
+
+                # only a spend that was actually constructed uses up its outputs
+                wallet.spent_transaction_outputs.update(input.output_reference for input in inputs)
+                return transaction
 
     raise Exception("Insufficient balance")
 
